@@ -178,7 +178,9 @@ def stepStat (args pyout : Sexp) : String :=
           let chunked := vk == .none && ak == .tuple && nRed > 0 && nRed + 1 == sh.length &&
             size > nmax && !sel.isSlice
           let vsh := viewShape' v
+          let inP := codeNanAware cfg sel vk || noNanInScope data sel vk v
           let br :=
+            if !inP then "plain-nan" else
             if chunked then (if sel.isNone then "chunked-nosel" else "chunked-masked")
             else match sel with
               | .none => "nosel"
@@ -193,7 +195,7 @@ def stepStat (args pyout : Sexp) : String :=
               else if !allStep1 v then "-bail"
               else if keptShape red vsh == [] then "-scalar"
               else if subShape (bbox vsh vm) == vsh then "-fullbox" else "-pad"
-          driverResult (resultSexp impl.shape shown) ok implok true (br ++ br2)
+          driverResult (resultSexp impl.shape shown) ok implok inP (if inP then br ++ br2 else br)
         | none => bad "stat-axis"
       | _, _ => bad "stat-view-or-sel"
     | _, _, _, _, _, _ => bad "stat-args"
